@@ -754,215 +754,3 @@ Proof. revert s; induction evs as [|e r IH]; intros s H; cbn; auto using Inv_ste
 Lemma Inv_reach w evs : Inv (run (init w) evs).
 Proof. apply Inv_run, Inv_init. Qed.
 
-(* =================================================================== C17_reason_once *)
-Lemma reason_step s e r : reason s = Some r -> reason (step s e) = Some r.
-Proof.
-  intros H. assert (Hne : e = CreateChannel \/ e <> CreateChannel) by (destruct e; auto; right; discriminate).
-  destruct Hne as [-> | Hne]; [exact H|]. apply (r_rk _ _ (R_step s e Hne)); auto.
-Qed.
-Theorem reason_once : forall s evs r, reason s = Some r -> reason (run s evs) = Some r.
-Proof. intros s evs; revert s; induction evs as [|e t IH]; intros s r H; cbn; auto using reason_step. Qed.
-
-(* who sets it: close()/Drop publish the SCTP-specific reason if the association already died of something,
-   else LocalClose / Dropped *)
-Theorem reason_set_by_close : forall s, reason s = None -> sig s <> GClosed ->
-  reason (step s Close) = Some (match sctp_reason s with Some x => x | None => DisconnectReason_LocalClose end).
-Proof.
-  intros s Hn Hs. cbn [step].
-  assert (E : already_closed s = false).
-  { rewrite already_closed_spec. destruct (SignalingState_eqb (sig s) GClosed) eqn:E; auto. apply sig_eqb_eq in E; contradiction. }
-  destruct (close_with_core s DisconnectReason_LocalClose E) as (Hc & _). unfold core in Hc. inversion Hc as [[E1 E2 E3 E4]].
-  rewrite E4, Hn. reflexivity.
-Qed.
-
-(* =================================================================== C17_close_is_terminal_and_idempotent *)
-Lemma CL_core_step s e : CL s -> core (step s e) = core s /\ CL (step s e).
-Proof.
-  intros H. assert (Hne : e = CreateChannel \/ e <> CreateChannel) by (destruct e; auto; right; discriminate).
-  destruct Hne as [-> | Hne]; [split; [reflexivity | exact H]|]. apply (r_cl _ _ (R_step s e Hne)); auto.
-Qed.
-Lemma CL_core_run s evs : CL s -> core (run s evs) = core s /\ CL (run s evs).
-Proof.
-  revert s; induction evs as [|e t IH]; intros s H; cbn; auto.
-  destruct (CL_core_step s e H) as [E1 H1]. destruct (IH _ H1) as [E2 H2]. split; [congruence | auto].
-Qed.
-Lemma close_CL s : Inv s -> CL (step s Close).
-Proof.
-  intros (Hc & _). cbn [step]. destruct (already_closed s) eqn:E.
-  - unfold close_with; rewrite E. apply Hc. rewrite already_closed_spec in E. apply sig_eqb_eq; auto.
-  - apply close_with_CL; auto.
-Qed.
-Lemma close_twice s : Inv s -> step (step s Close) Close = step s Close.
-Proof.
-  intros H. pose proof (close_CL s H) as HC. cl_open HC. cbn [step] in *.
-  unfold close_with at 1. rewrite already_closed_spec, Hs. reflexivity.
-Qed.
-
-Definition closed_core (s : st) : Prop :=
-  peer s = PClosed /\ ice s = IClosed /\ sig s = GClosed /\ exists r, reason s = Some r.
-
-Theorem close_terminal_idempotent : forall w evs1 evs2,
-  let s := run (init w) evs1 in
-  let s' := step s Close in
-  closed_core s' /\ core (run s' evs2) = core s' /\ step s' Close = s'.
-Proof.
-  intros w evs1 evs2 s s'. pose proof (Inv_reach w evs1) as HI. fold s in HI.
-  pose proof (close_CL s HI) as HC. fold s' in HC. split; [|split].
-  - cl_open HC. unfold closed_core; eauto.
-  - apply CL_core_run; auto.
-  - apply close_twice; auto.
-Qed.
-
-(* Drop: same, unless start_dtls still holds a strong reference (then the teardown is deferred) *)
-Lemma drop_CL s : Inv s -> task s <> TStarting -> CL (step s Drop).
-Proof.
-  intros HI Ht. cbn [step]. destruct (task_eqb (task s) TStarting) eqn:E.
-  - apply task_eqb_eq in E; contradiction.
-  - destruct HI as (Hc & _). destruct (already_closed s) eqn:E2.
-    + assert (HCs : CL s). { apply Hc. rewrite already_closed_spec in E2. apply sig_eqb_eq; auto. }
-      apply (r_cl _ _ (R_do_drop s)); auto.
-    + assert (HR : R (close_with s DisconnectReason_Dropped) (do_drop s)) by (unfold do_drop; rr).
-      apply (r_cl _ _ HR). apply close_with_CL; auto.
-Qed.
-Theorem drop_terminal : forall w evs1 evs2,
-  let s := run (init w) evs1 in
-  task s <> TStarting ->
-  let s' := step s Drop in
-  closed_core s' /\ core (run s' evs2) = core s' /\ task s' = TExited.
-Proof.
-  intros w evs1 evs2 s Ht s'. pose proof (Inv_reach w evs1) as HI. fold s in HI.
-  pose proof (drop_CL s HI Ht) as HC. fold s' in HC. split; [|split].
-  - cl_open HC. unfold closed_core; eauto.
-  - apply CL_core_run; auto.
-  - subst s'. cbn [step]. destruct (task_eqb (task s) TStarting) eqn:E.
-    + apply task_eqb_eq in E; contradiction.
-    + reflexivity.
-Qed.
-
-(* =================================================================== C17_close_exactly_once *)
-(* the association (a cleanup guard ran) or the connection (signaling closed) ended in this step *)
-Definition ends (s s' : st) : Prop := guards s' <> guards s \/ (sig s <> GClosed /\ sig s' = GClosed).
-
-Lemma never_two s : Inv s -> Forall (fun c => c_closes c <= 1) (chans s).
-Proof. intros (_ & HJ & _). eapply Forall_impl; [|exact HJ]. intros c (H & _); exact H. Qed.
-
-Lemma ends_all_one s e : Inv s -> ends s (step s e) -> Forall one (chans (step s e)).
-Proof.
-  intros (Hc & HJ & Hw) [Hg | [Hs1 Hs2]].
-  - assert (Hne : e <> CreateChannel) by (intros ->; apply Hg; reflexivity).
-    destruct (ga_g _ _ (r_ga _ _ (R_step s e Hne)) HJ); auto. contradiction.
-  - destruct (SG_step s e Hs2) as [H|[_ H]]; auto. contradiction.
-Qed.
-Lemma mono_step s e : mono (chans s) (chans (step s e)).
-Proof.
-  assert (Hne : e = CreateChannel \/ e <> CreateChannel) by (destruct e; auto; right; discriminate).
-  destruct Hne as [-> | Hne]; [cbn [step]; cbn; apply mono_app|]. apply (ga_mono _ _ (r_ga _ _ (R_step s e Hne))).
-Qed.
-Lemma mono_run s evs : mono (chans s) (chans (run s evs)).
-Proof.
-  revert s; induction evs as [|e t IH]; intros s; cbn; [apply mono_refl|].
-  eapply mono_trans; [apply mono_step | apply IH].
-Qed.
-
-Theorem close_exactly_once : forall w evs1,
-  let s := run (init w) evs1 in
-  Forall (fun c => c_closes c <= 1) (chans s)
-  /\ forall e, ends s (step s e) ->
-       let s' := step s e in
-       Forall (fun c => c_closes c = 1) (chans s')
-       /\ forall evs2 k c, nth_error (chans s') k = Some c ->
-            exists c', nth_error (chans (run s' evs2)) k = Some c' /\ c_closes c' = 1.
-Proof.
-  intros w evs1 s. pose proof (Inv_reach w evs1) as HI. fold s in HI. split; [apply never_two; auto|].
-  intros e He s'. pose proof (ends_all_one s e HI He) as H1. fold s' in H1. split; [exact H1|].
-  intros evs2 k c Hk.
-  destruct (mono_run s' evs2 k c Hk) as [c' [Hk' Hle]]. exists c'; split; auto.
-  assert (HI2 : Inv (run s' evs2)) by (apply Inv_run, Inv_step; auto).
-  pose proof (never_two _ HI2) as H2. rewrite Forall_forall in H1, H2.
-  specialize (H1 c (nth_error_In _ _ Hk)). specialize (H2 c' (nth_error_In _ _ Hk')). unfold one in H1. lia.
-Qed.
-
-(* the cleanup guard and close_with_reason both really end things (premise of the theorem is satisfiable) *)
-Lemma guard_exit_ends s : sctp_run s = true -> guards (guard_exit s) = S (guards s).
-Proof. intros E. unfold guard_exit. rewrite E. cbn. unfold wake_sender; cbn; dm; reflexivity. Qed.
-
-(* =================================================================== C17_blocked_sender_released *)
-Theorem blocked_sender_released : forall w evs r n,
-  let s := run (init w) evs in
-  sender s = SdParked r n -> sctp_is_closed s = true ->
-  sender (run s [SctpLoop; SenderPoll]) = SdErr.
-Proof.
-  intros w evs r n s Hs Hc. pose proof (Inv_reach w evs) as (_ & _ & Hw). fold s in Hw.
-  destruct (Hw r n Hs) as [-> Hn]. cbn [run step].
-  destruct (sctp_run s) eqn:Er.
-  - rewrite Hc.
-    assert (HX : forall x, sctp_run x = true -> sctp_is_closed x = true -> sender x = SdParked true n ->
-                 sender (step (guard_exit x) SenderPoll) = SdErr).
-    { intros x E1 E2 E3. destruct (guard_exit_low x E1) as (G1 & G2 & G3).
-      cbn [step]. rewrite G3, sender_wake, E3. cbn. unfold sctp_is_closed. rewrite G1. reflexivity. }
-    destruct (close_sig s); apply HX; auto.
-  - destruct (Hn Hc) as [-> | X]; [|discriminate].
-    cbn [step]. rewrite Hs. cbn. rewrite Hc. reflexivity.
-Qed.
-(* premises are satisfiable: a sender parked on a full window when the peer aborts *)
-Example blocked_sender_example :
-  let s := run (phase_state true PhChannelsOpen) [WindowFull; SenderEnter; SctpAbort] in
-  sender s = SdParked true false /\ sctp_is_closed s = true /\ sender (run s [SctpLoop; SenderPoll]) = SdErr.
-Proof. vm_compute. repeat split. Qed.
-
-(* =================================================================== the state task after close / after its exit *)
-Definition is_app (e : event) : bool :=
-  match e with Close | Drop | SigTo _ => true | _ => false end.
-
-Lemma core_report_peer_ne s p : core (report_peer s p) = (peer (report_peer s p), ice s, sig s, reason s).
-Proof. unfold report_peer; cbn; dm; reflexivity. Qed.
-
-Theorem exited_task_is_silent : forall s e, task s = TExited -> is_app e = false -> core (step s e) = core s.
-Proof.
-  intros s e Ht Ha. destruct e; cbn in Ha; try discriminate; cbn [step]; rewrite ?Ht; try reflexivity;
-    try (dm; reflexivity).
-  - (* SenderPoll etc. handled above *) unfold wake_sender; cbn; dm; reflexivity.
-  - unfold sctp_die; dm; reflexivity.
-  - unfold sctp_die; dm; reflexivity.
-  - unfold sctp_die; cbn; dm; reflexivity.
-  - unfold sctp_die; dm; reflexivity.
-  - unfold sctp_die; dm; reflexivity.
-  - dm; try reflexivity; match goal with |- core (guard_exit ?x) = _ => destruct (guard_exit_proj x) as [H _]; rewrite H; reflexivity end.
-  - dm; reflexivity.
-Qed.
-
-(* after close() the state task needs at most two observations (DTLS, ICE) to reach its exit,
-   wherever it was: waiting for ICE, inside start_dtls (close while connecting), or connected *)
-Lemma loop_top_CL_exit s : CL s -> task (loop_top s) = TExited.
-Proof.
-  intros H; cl_open H. unfold loop_top.
-  assert (E : ice_t (report_ice s (ice_of (ice_t s))) = ice_t s) by apply report_ice_ice_t.
-  rewrite E. destruct (ice_t s); cbn in Hd; try discriminate; reflexivity.
-Qed.
-Lemma task_after_start s : task (after_start s) = TExited \/ after_start s = s.
-Proof. unfold after_start. destruct (drop_pending s); [left; reflexivity | right; reflexivity]. Qed.
-
-Theorem state_task_exits_after_close : forall w evs,
-  let s := step (run (init w) evs) Close in
-  task (run s [ObsDtls; ObsIce]) = TExited.
-Proof.
-  intros w evs s. pose proof (close_CL _ (Inv_reach w evs)) as HC. fold s in HC.
-  cbn [run].
-  destruct (CL_core_step s ObsDtls HC) as [_ HC1].
-  set (s1 := step s ObsDtls) in *.
-  cbn [step]. destruct (task s1) eqn:Et.
-  - apply loop_top_CL_exit; auto.
-  - (* still inside start_dtls after ObsDtls: impossible, the runner is gone *)
-    exfalso. subst s1. cbn [step] in Et. cl_open HC.
-    destruct (task s) eqn:Ets; try (rewrite Ets in Et; discriminate).
-    + destruct (dtls s) eqn:Ed; rewrite ?Hdr in Et; cbn in Et.
-      * unfold start_err in Et. destruct (task_after_start (w_task (report_peer (set_reason (guard_exit s) DisconnectReason_DtlsFailed) PFailed) TExited false false)) as [X|X]; rewrite X in Et; cbn in Et; discriminate.
-      * unfold start_err in Et. destruct (task_after_start (w_task (report_peer (set_reason (guard_exit s) DisconnectReason_DtlsFailed) PFailed) TExited false false)) as [X|X]; rewrite X in Et; cbn in Et; discriminate.
-      * destruct (task_after_start (w_task (report_peer s PConnected) TConn (loops_done s) false)) as [X|X]; rewrite X in Et; cbn in Et; discriminate.
-      * unfold start_err in Et. destruct (task_after_start (w_task (report_peer (set_reason (guard_exit s) DisconnectReason_DtlsFailed) PFailed) TExited false false)) as [X|X]; rewrite X in Et; cbn in Et; discriminate.
-      * unfold start_err in Et. destruct (task_after_start (w_task (report_peer (set_reason (guard_exit s) DisconnectReason_DtlsFailed) PFailed) TExited false false)) as [X|X]; rewrite X in Et; cbn in Et; discriminate.
-    + destruct (webrtc s); [|congruence]. destruct (dtls s); try congruence; unfold leave_conn in Et; cbn in Et; discriminate.
-  - cl_open HC1. rewrite Hd. apply loop_top_CL_exit.
-    assert (HR : R s1 (leave_conn s1 TIdle)) by apply R_leave_conn. apply (r_cl _ _ HR); auto.
-  - reflexivity.
-Qed.
